@@ -67,6 +67,27 @@ type c15Outcome struct {
 	err       error
 	grpcClass string // ok | permanent | retry | throttle:<d>
 	httpClass string
+	// on the wire (OTLP/HTTP): the status code the receiver must answer with and whether Retry-After must be present
+	httpStatus int
+	retryAfter bool
+}
+
+func c15HTTPStatus(c codes.Code) int {
+	switch c {
+	case codes.Canceled, codes.DeadlineExceeded, codes.Aborted, codes.OutOfRange, codes.Unavailable, codes.DataLoss:
+		return 503
+	case codes.ResourceExhausted:
+		return 429
+	case codes.InvalidArgument:
+		return 400
+	case codes.Unauthenticated:
+		return 401
+	case codes.PermissionDenied:
+		return 403
+	case codes.Unimplemented:
+		return 404
+	}
+	return 500
 }
 
 func c15Retryable(c codes.Code) bool {
@@ -111,9 +132,9 @@ func c15HTTPClass(c codes.Code, delay time.Duration) string {
 
 func c15Outcomes() []c15Outcome {
 	out := []c15Outcome{
-		{"nil", nil, "ok", "ok"},
-		{"plain-error", errors.New("boom"), "retry", "retry"},
-		{"permanent-error", consumererror.NewPermanent(errors.New("perm")), "permanent", "permanent"},
+		{"nil", nil, "ok", "ok", 200, false},
+		{"plain-error", errors.New("boom"), "retry", "retry", 503, false},
+		{"permanent-error", consumererror.NewPermanent(errors.New("perm")), "permanent", "permanent", 500, false},
 	}
 	for c := codes.Canceled; c <= codes.Unauthenticated; c++ {
 		for _, d := range []time.Duration{0, 2 * time.Second} {
@@ -130,10 +151,12 @@ func c15Outcomes() []c15Outcome {
 			case c == codes.ResourceExhausted && d > 0:
 				g = fmt.Sprintf("throttle:%v", d) // RESOURCE_EXHAUSTED is retryable only when the server signals recovery with RetryInfo
 			}
-			out = append(out, c15Outcome{fmt.Sprintf("%v/retry-delay=%v", c, d), st.Err(), g, c15HTTPClass(c, d)})
+			hs := c15HTTPStatus(c)
+			ra := d > 0 && (hs == 429 || hs == 503)
+			out = append(out, c15Outcome{fmt.Sprintf("%v/retry-delay=%v", c, d), st.Err(), g, c15HTTPClass(c, d), hs, ra})
 			// the same status inside a permanent error (what an OTLP exporter returns for a non-retryable reply in a
 			// collector-to-collector chain): "a consumer error carrying an explicit gRPC status is reported with that status"
-			out = append(out, c15Outcome{fmt.Sprintf("permanent+%v/retry-delay=%v", c, d), consumererror.NewPermanent(st.Err()), g, c15HTTPClass(c, d)})
+			out = append(out, c15Outcome{fmt.Sprintf("permanent+%v/retry-delay=%v", c, d), consumererror.NewPermanent(st.Err()), g, c15HTTPClass(c, d), hs, ra})
 		}
 	}
 	return out
@@ -529,6 +552,25 @@ func c15Raw(w *c15World, c c15Case) (string, string) {
 		ct, body = "application/json", []byte(`{}`)
 	}
 	w.cur = errors.New("must not be called")
+	var wire *c15Outcome
+	if strings.HasPrefix(c.Raw, "wire:") {
+		// a VALID request answered according to the consumer's outcome: the status code and Retry-After header on the wire
+		for i, o := range c15Outcomes() {
+			if o.Name == strings.TrimPrefix(c.Raw, "wire:") {
+				oo := c15Outcomes()[i]
+				wire = &oo
+			}
+		}
+		if wire == nil {
+			return "harness", "unknown outcome " + c.Raw
+		}
+		w.cur = wire.err
+		if c.Signal == "traces" {
+			td := ptrace.NewTraces()
+			td.ResourceSpans().AppendEmpty().ScopeSpans().AppendEmpty().Spans().AppendEmpty().SetName("x")
+			body, _ = (&ptrace.ProtoMarshaler{}).MarshalTraces(td)
+		}
+	}
 	req, _ := http.NewRequest(method, url, bytes.NewReader(body))
 	if ct != "" {
 		req.Header.Set("Content-Type", ct)
@@ -541,6 +583,15 @@ func c15Raw(w *c15World, c c15Case) (string, string) {
 		return "raw-client-error", fmt.Sprintf("%+v: %v", c, err)
 	}
 	resp.Body.Close()
+	if wire != nil {
+		if resp.StatusCode != wire.httpStatus {
+			return fmt.Sprintf("wire-status:%s:got=%d,spec=%d", strings.SplitN(wire.Name, "/", 2)[0], resp.StatusCode, wire.httpStatus), fmt.Sprintf("%+v: consumer outcome %s answered with HTTP %d, the OTLP specification's mapping prescribes %d", c, wire.Name, resp.StatusCode, wire.httpStatus)
+		}
+		if has := resp.Header.Get("Retry-After") != ""; has != wire.retryAfter {
+			return fmt.Sprintf("wire-retry-after:%s:got=%v,spec=%v", strings.SplitN(wire.Name, "/", 2)[0], has, wire.retryAfter), fmt.Sprintf("%+v: consumer outcome %s: Retry-After header present=%v, expected %v (status %d)", c, wire.Name, has, wire.retryAfter, resp.StatusCode)
+		}
+		return "", ""
+	}
 	if strings.HasPrefix(c.Raw, "empty-request") {
 		if resp.StatusCode/100 != 2 || len(w.gotJSON) != 0 {
 			return "empty-request:raw", fmt.Sprintf("%+v: a request without items must be acknowledged without invoking the consumer: status=%d consumer calls=%d", c, resp.StatusCode, len(w.gotJSON))
@@ -640,6 +691,11 @@ func TestVerif(t *testing.T) {
 			for _, sig := range []string{"logs", "traces", "metrics", "profiles"} {
 				for _, raw := range []string{"garbage-protobuf", "truncated-protobuf", "garbage-json", "wrong-content-type", "no-content-type", "method-get", "method-put", "unknown-content-encoding", "corrupt-gzip", "empty-request-protobuf", "empty-request-json"} {
 					run(c15Case{Auth: auth, Signal: sig, Raw: raw})
+				}
+			}
+			for _, sig := range []string{"logs", "traces"} {
+				for _, o := range outcomes {
+					run(c15Case{Auth: auth, Signal: sig, Raw: "wire:" + o.Name})
 				}
 			}
 		}
